@@ -42,7 +42,7 @@ MALFORMED = {
 SPECIAL_VALID = [
     "v, S { 0: 1, .. }", "v, S { 0x10: 1, .. }", "v, S { a.0.1: 1, .. }", "v, S { a.0.1.2: 1, .. }", "v, S { r#type: 1, .. }",
     "v, S { a.await: 1, .. }", "v, S { a.b().c[0].d.await: 1, .. }", "v, S { ***a: 1, .. }", "v, (0: 1, *1: 2, 2.len(): 3)",
-    "v, #(..)", "v, #(..,)", "v, #{..}", "v, _ {..}", "v, S {}", "v, ()", "v, []", "v, #()", "v, #{}", "v, [..]", "v, [.., ..]",
+    "v, #(..)", "v, #(..,)", "v, #(..5)", "v, #(..=5, 1)", "v, #(1, ..5, ..)", "v, #(.. 5)", "v, #(..5, ..=6, ..)", "v, #{..}", "v, _ {..}", "v, S {}", "v, ()", "v, []", "v, #()", "v, #{}", "v, [..]", "v, [.., ..]",
     "v, [1, .., 2, .., 3]", "v, S { a: .., b: ..=5, .. }", "v, x", "v, f()", "v, a::b::<u8>::C", "v, Vec::<u8>::new()",
     "v, S { a: b::C { d: 1 }, .. }", "v, == S { a: 1 }", "v, < f(1, 2)", "v, >= -5", "v, != (1, 2)", "v, =~ x", "v, =~ r\"a\"",
     "v, =~ \"a\"", "v, |x| x > 5", "v, move |x| x", "v, |x: &u8| -> bool { true }", "v, 'a'..='z'", "v, 1..", "v, ..=2",
